@@ -327,22 +327,32 @@ def run(ck):
         names = sorted(pool0)
         combos = [(a, b) for a in CTX for b in ("none", "units", "basis")]
         nround = ck.n(1, 3)
+        # basis contexts of a COMPLEX Hermitian operator (inverse of the eigenvector matrix is its conjugate transpose, not its
+        # transpose) for the two-index objects
+        Hc_data = numpy.array([[0.0, 0.2 + 0.3j, 0.1j], [0.2 - 0.3j, 1.0, 0.25 - 0.4j], [-0.1j, 0.25 + 0.4j, 1.3]])
+        ccombos = [("cbasis-read", "none"), ("cbasis-read", "cbasis"), ("none", "cbasis"), ("cbasis", "none")]
         for rnd in range(nround):
             for name in names:
-                for (cs, cl) in combos:
-                    if ck.quick and rng.random() < 0.45 and (cs, cl) != ("none", "none"):
+                for (cs, cl) in combos + (ccombos if name in ("Hamiltonian", "Operator", "ReducedDensityMatrix") else []):
+                    if ck.quick and rng.random() < 0.45 and (cs, cl) != ("none", "none") and not cs.startswith("cbasis"):
                         continue
                     pool, H = build_pool()
+                    if cs.startswith("cbasis") or cl.startswith("cbasis"):
+                        H = Hamiltonian(data=Hc_data.copy())
+                        cs, cl = cs.replace("cbasis", "basis"), cl.replace("cbasis", "basis")
+                        complex_ctx = True
+                    else:
+                        complex_ctx = False
                     obj, fn = pool[name]
                     via = rng.choice(["file", "file", "scopy"]) if hasattr(obj, "scopy") else "file"
-                    inp = {"class": name, "context_at_save": cs, "context_at_load": cl, "via": via}
+                    inp = {"class": name, "context_at_save": cs, "context_at_load": cl, "via": via, "complex_basis_operator": complex_ctx}
                     try:
                         ref = observe(fn, obj)
                     except Exception as e:
                         ck.fail("raises:observe:%s" % name, "reading the observables of the original raised %r" % (e,), inp)
                         continue
                     fnm = os.path.join(tmp, "p.qrp")
-                    ck.case(("parcel", name, cs, cl, rnd), nontrivial=(cs != "none" or cl != "none"), kind="parcel", cls=name, save_ctx=cs, load_ctx=cl,
+                    ck.case(("parcel", name, cs, cl, complex_ctx, rnd), nontrivial=(cs != "none" or cl != "none"), kind="parcel", cls=name, save_ctx=cs, load_ctx=cl,
                             sample=inp if (name == "Hamiltonian" and cs == "units" and cl == "basis") else None)
 
                     def do_save():
